@@ -456,6 +456,26 @@ def case_mixed(chk, prog, files):
                             folded.setdefault(other.func.value.attr, []).append((g, x))
                         elif isinstance(other, ast.Attribute) and isinstance(other.value, ast.Name) and other.value.id == "self":
                             raw.setdefault(other.attr, []).append((g, x))
+            # CASE-MIXED.ctor: the attribute is folded once, by code only the constructor runs, and compared as spelled in the methods: a plain attribute can be
+            # re-assigned after construction (`obj.frame = 'enu'`), and that spelling - which the constructor accepts - then takes the wrong branch
+            for attr in sorted(normalised & set(raw)):
+                where = [g for g in c.methods.values() for x in ast.walk(g.node) if isinstance(x, ast.Assign) and any(
+                    isinstance(t, ast.Attribute) and isinstance(t.value, ast.Name) and t.value.id == "self" and t.attr == attr for t in x.targets)
+                    and isinstance(x.value, ast.Call) and isinstance(x.value.func, ast.Attribute) and x.value.func.attr in ("upper", "lower", "casefold")]
+
+                def callers(name):
+                    return {h.name for h in c.methods.values() for y in ast.walk(h.node) if isinstance(y, ast.Call) and isinstance(y.func, ast.Attribute)
+                            and isinstance(y.func.value, ast.Name) and y.func.value.id == "self" and y.func.attr == name}
+                ctor_only = where and all(g.name == "__init__" or callers(g.name) <= {"__init__"} for g in where)
+                has_setter = any(g.is_setter and g.name == attr for g in c.methods.values()) or attr in getattr(c, "properties", {})
+                if not ctor_only or has_setter:
+                    continue
+                for g, x in raw[attr]:
+                    if g.name == "__init__" or g in where or g.name.startswith("_"):
+                        continue
+                    chk.finding("CASE-MIXED.ctor", rel, g.qname, "raw comparison %s" % ast.unparse(x),
+                                "`self.%s` is case-folded only by code the constructor runs (%s) and compared as spelled here: after `obj.%s = <other spelling>` the same "
+                                "request takes another branch than on a freshly constructed object" % (attr, ", ".join(sorted({w.qname for w in where})), attr), line=x.lineno)
             for attr in sorted(set(folded) & set(raw)):
                 n += 1
                 if attr in normalised:
@@ -681,6 +701,10 @@ class _LintFixture(_np.ndarray):
             self.table = r * lon
         self._key = key
         return self.table
+    def _fold(self):
+        self.kind = self.kind.upper()
+    def kind_use(self):
+        return 1 if self.kind == 'ENU' else 2
     def latched_data(self, flag):
         seen = getattr(self, '_seen', None)
         if seen is None:
@@ -827,7 +851,7 @@ def self_test(chk, prog):
         signature(sink, p5, [FIXTURE_HOST])
     except Exception as e:
         chk.error("lint SIGNATURE crashed on its positive example: %s: %s" % (type(e).__name__, e))
-    for name in list(ALL) + ["SHADOW-REBIND.memo", "SHADOW-REBIND.derived", "CACHE-KEY.property", "CACHE-KEY.early", "LATCH.data", "SIGN-CANON.rows"]:
+    for name in list(ALL) + ["SHADOW-REBIND.memo", "SHADOW-REBIND.derived", "CACHE-KEY.property", "CACHE-KEY.early", "LATCH.data", "CASE-MIXED.ctor", "SIGN-CANON.rows"]:
         fired = name in sink.rules
         chk.canary("lint %s fires on its embedded positive example" % name, fired, "" if fired else "no finding on the fixture")
 
@@ -1248,12 +1272,20 @@ def cache_key(chk, prog, files):
                     return x.args[1].value
                 return None
             attr = key_attr(sides[0]) or key_attr(sides[1])
+            tuple_form = False
+            if attr is None and all(isinstance(x_, ast.Tuple) for x_ in sides) and len(sides[0].elts) == len(sides[1].elts) and sides[0].elts:
+                # tuple key: (lat, lon) == (self.latitude, self.longitude), each attribute stored from the matching element somewhere in the function
+                for me, ot in ((sides[0], sides[1]), (sides[1], sides[0])):
+                    if all(key_attr(e_) for e_ in me.elts) and all(ast.dump(stores[key_attr(e_)]) == ast.dump(o_) for e_, o_ in zip(me.elts, ot.elts)):
+                        attr, other, tuple_form = key_attr(me.elts[0]), ot, True
+                        break
             if attr is None:
                 continue
-            other = sides[1] if key_attr(sides[0]) == attr else sides[0]
-            stored = stores[attr]
-            if ast.dump(stored) != ast.dump(other):
-                continue                          # the remembered value is not the compared key
+            if not tuple_form:
+                other = sides[1] if key_attr(sides[0]) == attr else sides[0]
+                stored = stores[attr]
+                if ast.dump(stored) != ast.dump(other):
+                    continue                          # the remembered value is not the compared key
             key_expr = other
             if isinstance(other, ast.Name) and other.id in local_defs:
                 key_expr = local_defs[other.id][-1]
@@ -1266,6 +1298,10 @@ def cache_key(chk, prog, files):
             early_cached = set()
             for s in ast.walk(f.node):
                 if isinstance(s, ast.Assign) and s.value is cmp_ and isinstance(s.targets[0], ast.Name):
+                    flags.add(s.targets[0].id)
+                # the comparison and-ed with an availability test: same = hasattr(self, 'P') and key == self._key
+                if isinstance(s, ast.Assign) and isinstance(s.targets[0], ast.Name) and isinstance(s.value, ast.BoolOp) and isinstance(s.value.op, ast.And) \
+                        and any(v_ is cmp_ for v_ in s.value.values):
                     flags.add(s.targets[0].id)
 
             def is_flag(t):
